@@ -190,6 +190,21 @@ func Dups(n, steps int) *Scenario {
 	return &Scenario{Name: fmt.Sprintf("dups%d", n), Cfg: sim.Config{N: n}, Seed: seed}
 }
 
+// Burst: the static scenario in which, after `at` steps, validator 0's application submits k transactions in a row
+// (all pending when it records its next event) and, a few steps later, validator 1's application does the same.
+func Burst(n, at, k, steps int) *Scenario {
+	seed := FairSeed(seq(n), at, 3)
+	for i := 0; i < k; i++ {
+		seed = append(seed, Action{K: "T", A: 0})
+	}
+	seed = append(seed, FairSeed(seq(n), 4, 0)...)
+	for i := 0; i < k; i++ {
+		seed = append(seed, Action{K: "T", A: 1})
+	}
+	seed = append(seed, FairSeed(seq(n), steps, 3)...)
+	return &Scenario{Name: fmt.Sprintf("burst%d-%d", n, k), Cfg: sim.Config{N: n}, Seed: seed}
+}
+
 // Slow: n validators; validator n-1 takes only every `period`-th of its turns
 // in the round-robin (those with turn%period == offset) while the others keep
 // gossiping with it: its witnesses appear late in every round and elections
